@@ -123,6 +123,9 @@ def value_by_bits(I, st, aff):
 
 
 def check(env, rep, tier):
+    include(rep, env, tier, "c04", ("C04.2",), "C02.6",
+            "'re-serialising without a size limit reproduces the input': the serialiser refuses a message for its size only when a limit was "
+            "given and the accounted length exceeds it (no built-in cap on the unlimited path)")
     include(rep, env, tier, "c01", ("C01.2", "C01.4", "C01.6"), "C02.3", "'re-serialising reproduces the input': the encoder emits the RFC option headers and the payload behind its marker")
     configs = ["default"] if tier == "quick" else ["default", "nodefault", "udp"]
     rep.configs = configs
